@@ -3,12 +3,57 @@
            P=<pid|->;C=<ctime|->;TM=<time>;M=<base:size,...>;U=<base:size:name,...> *)
 let oz = function Some x -> string_of_z x | None -> "-"
 
+(* [tname] / [uname] print a thread name / an unloaded-module name of the dump record *)
+let print_out tname uname o =
+  let th = List.map (fun t ->
+    let (ip, sp) = match t.to_ctx with Some ((_, ip), sp) -> (string_of_z ip, string_of_z sp) | None -> ("-", "-") in
+    let unl = match t.to_unloaded with
+      | None -> "!"
+      | Some l -> String.concat "+" (List.map (fun (nm, off) -> uname nm ^ "." ^ string_of_z off) l) in
+    String.concat ":" [string_of_z t.to_id; (match t.to_name with Some n -> tname n | None -> "-");
+                       string_of_z t.to_info; ip; sp; string_of_z t.to_stack; string_of_z t.to_stack_room; unl])
+    o.o_threads in
+  let x = match o.o_exc with
+    | None -> "-"
+    | Some (((a, f), p), _) -> string_of_z a ^ ":" ^ string_of_z f ^ ":" ^ String.concat "+" (List.map string_of_z p) in
+  let rs = match o.o_exc with
+    | Some (_, Some l) -> "#" ^ String.concat "" (List.map (fun c -> String.make 1 (Char.chr (int_of_z c))) l)
+    | _ -> "" in
+  Printf.printf "T=%s;R=%s;X=%s;P=%s;C=%s;TM=%s;M=%s;U=%s%s\n"
+    (String.concat "," th)
+    (if int_of_z o.o_requesting < 0 then "-" else string_of_z o.o_requesting)
+    x (oz o.o_pid) (oz o.o_ctime) (string_of_z o.o_time)
+    (String.concat "," (List.map (fun (b, s) -> string_of_z b ^ ":" ^ string_of_z s) o.o_modules))
+    (String.concat "," (List.map (fun ((b, s), nm) -> string_of_z b ^ ":" ^ string_of_z s ^ ":" ^ uname nm) o.o_unloaded)) rs
+
+(* names read from the bytes of a dump are carried as integers (Bytes.pack_units: base 65537, digit = code unit + 1) *)
+let unpack_name n =
+  let b = Buffer.create 16 in
+  let base = ZA.of_int 65537 in
+  let rec go n =
+    if ZA.sign n > 0 then begin
+      Buffer.add_char b (Char.chr ((ZA.to_int (ZA.rem n base) - 1) land 255));
+      go (ZA.div n base)
+    end in
+  go (z_to_zt n); Buffer.contents b
+
+(* H <hex> ...: the bytes of a whole dump; the rest of the line (the generator's description) is not read *)
+let h_case hex =
+  let bytes = List.init (String.length hex / 2) (fun i -> z_of_int (int_of_string ("0x" ^ String.sub hex (2 * i) 2))) in
+  match run_bytes Debug bytes with
+  | None -> print_string "NONE\n"
+  | Some o ->
+      (* unloaded-module names are "u<nn>": the answer format carries the number *)
+      let uname n = let s = unpack_name n in if String.length s > 1 && s.[0] = 'u' then String.sub s 1 (String.length s - 1) else "?" ^ s in
+      print_out unpack_name uname o
+
 let () =
   try
     while true do
       let line = input_line stdin in
       if String.length line > 0 && line.[0] <> '#' then begin
         let toks = Array.of_list (split_ws line) in
+        if toks.(0) = "H" then h_case toks.(1) else
         let pos = ref 0 in
         let next () = let t = toks.(!pos) in incr pos; t in
         let nz () = z_of_string (next ()) in
@@ -71,27 +116,7 @@ let () =
         let d = { d_platform = platform; d_arch = arch; d_time = time; d_threads = threads; d_names = names;
                   d_exc = exc; d_bp = bp; d_misc = misc; d_status = status; d_modules = mods;
                   d_unloaded = unl; d_mems = mems } in
-        let o = run_case Debug d in
-        let th = List.map (fun t ->
-          let (ip, sp) = match t.to_ctx with Some ((_, ip), sp) -> (string_of_z ip, string_of_z sp) | None -> ("-", "-") in
-          let unl = match t.to_unloaded with
-            | None -> "!"
-            | Some l -> String.concat "+" (List.map (fun (nm, off) -> string_of_z nm ^ "." ^ string_of_z off) l) in
-          String.concat ":" [string_of_z t.to_id; (match t.to_name with Some n -> "n" ^ string_of_z n | None -> "-");
-                             string_of_z t.to_info; ip; sp; string_of_z t.to_stack; string_of_z t.to_stack_room; unl])
-          o.o_threads in
-        let x = match o.o_exc with
-          | None -> "-"
-          | Some (((a, f), p), _) -> string_of_z a ^ ":" ^ string_of_z f ^ ":" ^ String.concat "+" (List.map string_of_z p) in
-        let rs = match o.o_exc with
-          | Some (_, Some l) -> "#" ^ String.concat "" (List.map (fun c -> String.make 1 (Char.chr (int_of_z c))) l)
-          | _ -> "" in
-        Printf.printf "T=%s;R=%s;X=%s;P=%s;C=%s;TM=%s;M=%s;U=%s%s\n"
-          (String.concat "," th)
-          (if int_of_z o.o_requesting < 0 then "-" else string_of_z o.o_requesting)
-          x (oz o.o_pid) (oz o.o_ctime) (string_of_z o.o_time)
-          (String.concat "," (List.map (fun (b, s) -> string_of_z b ^ ":" ^ string_of_z s) o.o_modules))
-          (String.concat "," (List.map (fun ((b, s), nm) -> string_of_z b ^ ":" ^ string_of_z s ^ ":" ^ string_of_z nm) o.o_unloaded)) rs
+        print_out (fun n -> "n" ^ string_of_z n) string_of_z (run_case Debug d)
       end
     done
   with End_of_file -> ()
